@@ -178,6 +178,32 @@ def leg_r(rep, work, spec, name, cfg, driver_factory, internal=(), nproc=NPROC, 
     return st
 
 
+def leg_apalache(rep, work, module, obligations, timeout=600):
+    """unbounded obligations on a small typed module, discharged by Apalache's bounded checker used inductively:
+    obligations = [(name, init predicate, invariant, length)], e.g. ("step", "IndInv", "IndInv", 1).  A failed obligation
+    is a failure of the specification (exit 2), nothing about haiway."""
+    import shutil as _sh
+    import subprocess
+    if _sh.which("apalache-mc") is None:
+        rep.log(f"leg A {module}: apalache-mc not available - skipped")
+        return None
+    out = []
+    for name, init, inv, length in obligations:
+        t0 = time.time()
+        r = subprocess.run(["apalache-mc", "check", f"--init={init}", f"--inv={inv}", f"--length={length}",
+                            f"--out-dir={work.path('apalache')}", os.path.join(tlc.SPECS, module + ".tla")],
+                           capture_output=True, text=True, timeout=timeout, cwd=work.dir)
+        ok = "EXITCODE: OK" in r.stdout
+        out.append(dict(obligation=name, init=init, inv=inv, length=length, ok=ok, wall_s=round(time.time() - t0, 1)))
+        if not ok:
+            raise TLCError(f"Apalache obligation {module}/{name} ({init} => {inv}, length {length}) failed - the "
+                           f"specification itself is wrong, nothing about haiway is concluded:\n" + r.stdout[-1500:])
+    rep.log(f"leg A {module}: " + ", ".join(f"{o['obligation']} ok ({o['wall_s']}s)" for o in out)
+            + " - proved for unbounded parameters (Apalache, inductive)")
+    rep.extra.setdefault("apalache", []).append(dict(module=module, obligations=out))
+    return out
+
+
 def tlc_values(out, prefixes):
     """values printed by PrintT, possibly wrapped over several lines: collect until brackets balance"""
     acc, depth = None, 0
